@@ -445,49 +445,10 @@ func (r *runner) apply(o op) {
 	}
 }
 
-// tick sends one tick and compares what fired with the model's due set.
-func (r *runner) tick() {
-	r.tk.tick(r.sync)
-	r.sync()
-	if !quiesce(r.baseline) {
-		r.c.Inconclusive("callback goroutines did not finish")
-	}
-	r.ticks++
-	got := r.take()
-	seen := map[int]int{}
-	for _, f := range got {
-		seen[f.key]++
-		r.fires++
-		m, ok := r.model[f.key]
-		switch {
-		case !ok && r.drained[f.key]:
-			r.c.Viol("C12/fired-after-drain/mid-sequence", fmt.Sprintf("key k%d fired at tick %d although its timer had been delivered by an earlier Drain and was not set again", f.key, r.ticks), r.witness(""))
-		case !ok:
-			r.c.Viol("C12/fired-but-not-pending", fmt.Sprintf("key k%d fired at tick %d but the model holds no pending timer for it (removed, already fired or never set)", f.key, r.ticks),
-				r.witness(fmt.Sprintf("tick=%d key=%d val=%d", r.ticks, f.key, f.val)))
-		case seen[f.key] > 1:
-			r.c.Viol("C12/duplicate-in-tick", fmt.Sprintf("key k%d fired twice at tick %d", f.key, r.ticks), r.witness(""))
-		case m.due != r.ticks:
-			r.c.Viol(fmt.Sprintf("C12/early/%s/%s", m.lastOp, revs(m.due-r.ticks, r.n)),
-				fmt.Sprintf("key k%d fired at tick %d, due at tick %d (armed at tick %d by %s)", f.key, r.ticks, m.due, m.armedAt, m.lastOp),
-				r.witness(fmt.Sprintf("tick=%d key=%d due=%d", r.ticks, f.key, m.due)))
-			delete(r.model, f.key)
-		default:
-			if m.val != f.val {
-				r.c.Viol("C12/wrong-value/"+m.lastOp, fmt.Sprintf("key k%d fired with value %d, most recently set value is %d", f.key, f.val, m.val), r.witness(""))
-			}
-			delete(r.model, f.key)
-		}
-	}
-	for k, m := range r.model {
-		if m.due == r.ticks {
-			// not fired at its due tick; keep tracking to classify how late it comes
-			m.due = -m.due // mark overdue (negative)
-		}
-		_ = k
-	}
-	r.applyActs(got)
-}
+// tick sends one tick and compares what fired with the model's due set. (A timer that missed its
+// due tick stays in the model marked overdue, so that a late firing during the rest of the
+// sequence is classified as late - with the same coarse keys as during the flush.)
+func (r *runner) tick() { r.tickLate() }
 
 func revs(delta, n int) string {
 	if delta%n == 0 {
@@ -554,7 +515,8 @@ func (r *runner) tickLate() {
 		case !ok && r.drained[f.key]:
 			r.c.Viol("C12/fired-after-drain/mid-sequence", fmt.Sprintf("key k%d fired at tick %d although its timer had been delivered by an earlier Drain and was not set again", f.key, r.ticks), r.witness(""))
 		case !ok:
-			r.c.Viol("C12/fired-but-not-pending", fmt.Sprintf("key k%d fired at tick %d but the model holds no pending timer for it", f.key, r.ticks), r.witness(""))
+			r.c.Viol("C12/fired-but-not-pending", fmt.Sprintf("key k%d fired at tick %d but the model holds no pending timer for it (removed, already fired or never set)", f.key, r.ticks),
+				r.witness(fmt.Sprintf("tick=%d key=%d val=%d", r.ticks, f.key, f.val)))
 		case seen[f.key] > 1:
 			r.c.Viol("C12/duplicate-in-tick", fmt.Sprintf("key k%d fired twice at tick %d", f.key, r.ticks), r.witness(""))
 		case m.due < 0:
@@ -563,7 +525,8 @@ func (r *runner) tickLate() {
 			delete(r.model, f.key)
 		case m.due != r.ticks:
 			r.c.Viol(fmt.Sprintf("C12/early/%s/%s", m.lastOp, revs(m.due-r.ticks, r.n)),
-				fmt.Sprintf("key k%d fired at tick %d, due at tick %d", f.key, r.ticks, m.due), r.witness(""))
+				fmt.Sprintf("key k%d fired at tick %d, due at tick %d (armed at tick %d by %s)", f.key, r.ticks, m.due, m.armedAt, m.lastOp),
+				r.witness(fmt.Sprintf("tick=%d key=%d due=%d", r.ticks, f.key, m.due)))
 			delete(r.model, f.key)
 		default:
 			if m.val != f.val {
@@ -887,5 +850,6 @@ func TestVerifC12(t *testing.T) {
 
 	scriptedExtFamilies(t)
 	realFamilies(t)
+	consumerFamilies(t) // last: every cache leaves goroutines behind that join the baseline
 	kit.End()
 }
